@@ -114,6 +114,10 @@ class JSONValidator:
             return True, None
         except json.JSONDecodeError as e:
             return False, f"Invalid JSON: {e}"
+        except (ValueError, RecursionError) as e:
+            # Parser limits (integer digit limit, nesting beyond the recursion
+            # limit) must reject the input, not crash the gate.
+            return False, f"Unparseable JSON: {type(e).__name__}: {e}"
 
     def _measure_depth(self, obj, current: int = 0) -> int:
         """Measure nesting depth of JSON object."""
